@@ -449,11 +449,18 @@ func (db *LeveldbPermanent) loadLastSuffrageProof() error {
 	if err := pst.Iter(
 		leveldbutil.BytesPrefix(leveldbKeySuffrageProof[:]),
 		func(_, b []byte) (bool, error) {
-			var err error
+			enchint, m, bd, err := ReadOneHeaderFrame(b)
+			if err != nil {
+				return false, err
+			}
 
-			meta, err = ReadDecodeOneHeaderFrame(db.encs, b, &proof)
+			if err := DecodeFrame(db.encs, enchint, bd, &proof); err != nil {
+				return false, err
+			}
 
-			return false, err
+			meta, body = m, bd
+
+			return false, nil
 		},
 		false,
 	); err != nil {
